@@ -47,7 +47,11 @@ RRS = {
     '1cN'  : dict(n_cores=1, n_gpus=1, numa=True),
     '1cNl' : dict(n_cores=1, lfs=1, numa=True),
     '5c'   : dict(n_cores=5),
+    # requests without a core are not placeable: every rank is a process
+    '0c1g' : dict(n_cores=0, n_gpus=1),
+    '0cm'  : dict(n_cores=0, mem=1),
 }
+INVALID_RRS = ('0c1g', '0cm')
 
 
 _nl_cache = dict()
@@ -83,11 +87,15 @@ def ops_for(layout_name, quick):
     rrs = ['1c', '2c', '1c1g', '1chg', '1cl', '1cm']
     if not quick:
         rrs += ['hc', '5c']
+    invalid = list(INVALID_RRS)
     if 'numa' in layout_name:
         rrs = ['1c', '1c1g', '1cN', '1chg', '1cNl', '1cl']
     for r in rrs:
         for n in (1, 2, 3):
             ops.append(('find', r, n))
+    if 'numa' not in layout_name:
+        for r in invalid:
+            ops.append(('find', r, 1))
     for i in range(3):
         ops.append(('release', i))
     lay = LAYOUTS[layout_name]
@@ -214,6 +222,11 @@ def run_history(layout_name, hist):
                                     'occupancy changed by a failed find: '
                                     '%s -> %s' % (before, occupancy(nl)))
                 continue
+            if op[1] in INVALID_RRS:
+                raise Violation('C02', 'coreless-rank-granted|NodeList.'
+                                'find_slots|%s' % op[1],
+                                'request %s (no core) was granted: %s'
+                                % (RRS[op[1]], [slot_read(s) for s in res]))
             got = [slot_read(s) for s in res]
             trace.append((op, [(s['node_index'],
                                 [i for i, _ in s['cores']],
